@@ -3,6 +3,7 @@ import CedarVerif.Lemmas.ExtDecimal
 import CedarVerif.Lemmas.ExtDuration
 import CedarVerif.Lemmas.ExtDatetime
 import CedarVerif.Lemmas.ExtIP
+import CedarVerif.Lemmas.ExtDatetimeParse
 /-
 C07 — Extension types (decimal, ip, datetime, duration) compute exact results.
 Property theorems about the mirrors in `Cedar/Ext.lean`.
@@ -353,6 +354,17 @@ theorem network_broadcast_bitmask (v6 : Bool) (addr pl : Nat) (ha : addr < 2 ^ I
     IPAddr.broadcast v6 addr pl = addr ||| IPAddr.rustHostmask (IPAddr.width v6) pl :=
   ⟨IPAddr.network_eq_and v6 addr pl ha hp, IPAddr.broadcast_eq_or v6 addr pl hp⟩
 
+/-- **standard CIDR containment**: for prefix lengths within the family's width, `isInRange` holds iff the families
+    agree, the parent's prefix is not longer than the child's, and both addresses agree on the parent's prefix bits -/
+theorem isInRange_iff_prefix (v6a : Bool) (a pa : Nat) (v6b : Bool) (b pb : Nat)
+    (hpa : pa ≤ IPAddr.width v6a) (hpb : pb ≤ IPAddr.width v6b) :
+    IPAddr.isInRange v6a a pa v6b b pb = true ↔
+      v6a = v6b ∧ pb ≤ pa ∧ a / 2 ^ (IPAddr.width v6b - pb) = b / 2 ^ (IPAddr.width v6b - pb) := by
+  rw [(isInRange_spec v6a a pa v6b b pb).2]
+  constructor
+  · rintro ⟨rfl, h⟩; exact ⟨rfl, (IPAddr.subset_iff_prefix _ a pa b pb hpa hpb).mp h⟩
+  · rintro ⟨rfl, h⟩; exact ⟨rfl, (IPAddr.subset_iff_prefix _ a pa b pb hpa hpb).mpr h⟩
+
 -- 10.1.2.3/24 is in 10.1.0.0/16 and not vice versa; /0 contains everything; the masks for /0, /24, /32
 example : IPAddr.isInRange false 0x0a010203 24 false 0x0a010000 16 = true ∧
     IPAddr.isInRange false 0x0a010000 16 false 0x0a010203 24 = false ∧
@@ -361,6 +373,125 @@ example : IPAddr.isInRange false 0x0a010203 24 false 0x0a010000 16 = true ∧
     IPAddr.rustNetmask 32 0 = 0 ∧ IPAddr.rustNetmask 32 24 = 0xffffff00 ∧ IPAddr.rustNetmask 32 32 = 0xffffffff ∧
     IPAddr.rustHostmask 32 0 = 0xffffffff ∧ IPAddr.rustHostmask 32 24 = 0xff ∧ IPAddr.rustHostmask 32 32 = 0 ∧
     IPAddr.network false 0x0a010203 24 = 0x0a010200 ∧ IPAddr.broadcast false 0x0a010203 24 = 0x0a0102ff := by
+  decide +kernel
+
+/-- the address of the dotted quad `a.b.c.d` -/
+def v4addr (a b c d : Nat) : Nat := ((a * 256 + b) * 256 + c) * 256 + d
+
+/-- **isLoopback**: IPv4 — first octet 127 and prefix length ≥ 8 (the range lies inside 127.0.0.0/8);
+    IPv6 — exactly `::1` with prefix length 128 -/
+theorem loopback_spec :
+    (∀ a b c d pl, b < 256 → c < 256 → d < 256 →
+      (IPAddr.isLoopback false (v4addr a b c d) pl = true ↔ a = 127 ∧ 8 ≤ pl)) ∧
+    (∀ addr pl, IPAddr.isLoopback true addr pl = true ↔ addr = 1 ∧ 128 ≤ pl) := by
+  constructor
+  · intro a b c d pl hb hc hd
+    have e : v4addr a b c d / 2 ^ 24 = a := by simp only [v4addr]; omega
+    simp only [IPAddr.isLoopback, Bool.false_eq_true, if_false, e, Bool.and_eq_true, beq_iff_eq, decide_eq_true_eq,
+      ge_iff_le]
+  · intro addr pl
+    simp only [IPAddr.isLoopback, if_true, Bool.and_eq_true, beq_iff_eq, decide_eq_true_eq, ge_iff_le]
+
+/-- **isMulticast**: IPv4 — first octet in 224..239 (top four bits `1110`) and prefix length ≥ 4;
+    IPv6 — first byte `0xff` and prefix length ≥ 8 -/
+theorem multicast_spec :
+    (∀ a b c d pl, b < 256 → c < 256 → d < 256 →
+      (IPAddr.isMulticast false (v4addr a b c d) pl = true ↔ (224 ≤ a ∧ a ≤ 239) ∧ 4 ≤ pl)) ∧
+    (∀ b0 rest pl, rest < 2 ^ 120 →
+      (IPAddr.isMulticast true (b0 * 2 ^ 120 + rest) pl = true ↔ b0 = 255 ∧ 8 ≤ pl)) := by
+  constructor
+  · intro a b c d pl hb hc hd
+    have e : v4addr a b c d / 2 ^ 28 = 14 ↔ (224 ≤ a ∧ a ≤ 239) := by simp only [v4addr]; omega
+    simp only [IPAddr.isMulticast, Bool.false_eq_true, if_false, Bool.and_eq_true, beq_iff_eq, decide_eq_true_eq,
+      ge_iff_le, e]
+  · intro b0 rest pl hr
+    have e : (b0 * 2 ^ 120 + rest) / 2 ^ 120 = b0 := by
+      rw [Nat.add_comm, Nat.add_mul_div_right _ _ (Nat.two_pow_pos 120), Nat.div_eq_of_lt hr, Nat.zero_add]
+    simp only [IPAddr.isMulticast, if_true, e, Bool.and_eq_true, beq_iff_eq, decide_eq_true_eq, ge_iff_le]
+
+-- 127.0.0.1/8 loopback, 127.0.0.1/7 not; ::1 only with /128; 224.0.0.0/4 and 239.255.255.255 multicast, /3 not; ff00::/8
+example : IPAddr.isLoopback false (v4addr 127 0 0 1) 8 = true ∧ IPAddr.isLoopback false (v4addr 127 0 0 1) 7 = false ∧
+    IPAddr.isLoopback true 1 128 = true ∧ IPAddr.isLoopback true 1 127 = false ∧
+    IPAddr.isMulticast false (v4addr 224 0 0 0) 4 = true ∧ IPAddr.isMulticast false (v4addr 239 255 255 255) 32 = true ∧
+    IPAddr.isMulticast false (v4addr 224 0 0 0) 3 = false ∧ IPAddr.isMulticast false (v4addr 240 0 0 0) 32 = false ∧
+    IPAddr.isMulticast true (255 * 2 ^ 120 + 5) 8 = true ∧ IPAddr.isMulticast true (255 * 2 ^ 120 + 5) 7 = false := by
+  decide +kernel
+
+/-! ## datetime literals -/
+
+/-- **datetime, date-only form `YYYY-MM-DD`**: the value is `daysFromCivil · 86400000` when the date exists in the
+    proleptic Gregorian calendar, an error otherwise -/
+theorem datetime_parse_exact_date (ys ms ds : List Char)
+    (h1 : Datetime.digitsN 4 ys) (h2 : Datetime.digitsN 2 ms) (h3 : Datetime.digitsN 2 ds) :
+    Datetime.parse (String.ofList (Datetime.renderDate ys ms ds [])) =
+      if Datetime.dateOk (natOfDigits ys) (natOfDigits ms) (natOfDigits ds) = true then
+        some (Datetime.daysFromCivil (natOfDigits ys) (natOfDigits ms) (natOfDigits ds) * 86400000)
+      else none := by
+  simp only [Datetime.parse, String.toList_ofList, Datetime.parseDate_render ys ms ds [] h1 h2 h3,
+    List.isEmpty_nil, if_true, Datetime.msPerDay]
+
+/-- **datetime, full forms `YYYY-MM-DDThh:mm:ss(.SSS)?(Z|(+|-)hhmm)`**: when the date exists, `hh < 24`, `mm < 60`,
+    `ss < 60` and the offset has `hh < 24`, `mm < 60`, the value is exactly
+    `days·86400000 + (h·3600 + m·60 + s)·1000 + SSS − offsetSeconds·1000`; otherwise an error -/
+theorem datetime_parse_exact (ys ms ds hs mis ss : List Char) (m3 : Option (List Char)) (off : Datetime.Off)
+    (h1 : Datetime.digitsN 4 ys) (h2 : Datetime.digitsN 2 ms) (h3 : Datetime.digitsN 2 ds)
+    (h4 : Datetime.digitsN 2 hs) (h5 : Datetime.digitsN 2 mis) (h6 : Datetime.digitsN 2 ss)
+    (h7 : Datetime.msWF m3) (h8 : Datetime.offWF off) :
+    Datetime.parse (String.ofList (Datetime.renderDate ys ms ds (Datetime.renderTime hs mis ss m3 off))) =
+      if Datetime.dateOk (natOfDigits ys) (natOfDigits ms) (natOfDigits ds) = true ∧
+         natOfDigits hs < 24 ∧ natOfDigits mis < 60 ∧ natOfDigits ss < 60 ∧ Datetime.offOk off = true then
+        some (Datetime.daysFromCivil (natOfDigits ys) (natOfDigits ms) (natOfDigits ds) * 86400000 +
+              ((natOfDigits hs * 3600 + natOfDigits mis * 60 + natOfDigits ss : Nat) : Int) * 1000 +
+              (Datetime.msVal m3 : Int) - Datetime.offSecs off * 1000)
+      else none := by
+  simp only [Datetime.parse, String.toList_ofList,
+    Datetime.parseDate_render ys ms ds _ h1 h2 h3, Datetime.renderTime, List.isEmpty_cons,
+    Datetime.parseHMS_render hs mis ss _ h4 h5 h6, Datetime.parseMsOffset_render m3 off h7 h8, Datetime.msPerDay]
+  cases hdo : Datetime.dateOk (natOfDigits ys) (natOfDigits ms) (natOfDigits ds) <;>
+    cases hoo : Datetime.offOk off <;>
+    by_cases hh : natOfDigits hs < 24 <;> by_cases hmi : natOfDigits mis < 60 <;>
+    by_cases hs' : natOfDigits ss < 60 <;> simp [hh, hmi, hs']
+
+example : Datetime.parse "1970-01-02T00:00:00.001-0100" = some 90000001 ∧
+    Datetime.parse "1969-12-31T23:59:59Z" = some (-1000) ∧ Datetime.parse "2024-02-29" = some 1709164800000 ∧
+    Datetime.parse "2023-02-29" = none ∧ Datetime.parse "2024-01-01T24:00:00Z" = none ∧
+    Datetime.parse "2024-01-01T00:00:60Z" = none ∧ Datetime.parse "2024-01-01T00:00:00+2400" = none ∧
+    Datetime.parse "2024-01-01T00:00:00+2359" = some 1703980860000 ∧ Datetime.parse "2024-01-01T00:00:00" = none ∧
+    Datetime.parse "2024-1-01" = none := by decide +kernel
+example : Datetime.digitsN 4 "1970".toList ∧ Datetime.msWF (some "001".toList) ∧
+    Datetime.offWF (some (false, "01".toList, "00".toList)) ∧
+    String.ofList (Datetime.renderDate "1970".toList "01".toList "02".toList
+      (Datetime.renderTime "00".toList "00".toList "00".toList (some "001".toList)
+        (some (false, "01".toList, "00".toList)))) = "1970-01-02T00:00:00.001-0100" := by
+  refine ⟨by decide +kernel, (show Datetime.digitsN 3 "001".toList by decide +kernel),
+    (show Datetime.digitsN 2 "01".toList ∧ Datetime.digitsN 2 "00".toList by decide +kernel), by decide +kernel⟩
+
+/-! ## ip literals (item not proved in general: only the statement and evaluated instances) -/
+
+/-- NOT PROVED (time): dotted-quad/prefix rendering round-trips through `IPAddr.parse` -/
+def FullStatement_ip_parse_v4_roundtrip : Prop :=
+  ∀ a b c d p : Nat, a < 256 → b < 256 → c < 256 → d < 256 → p ≤ 32 →
+    IPAddr.parse (toString a ++ "." ++ toString b ++ "." ++ toString c ++ "." ++ toString d ++ "/" ++ toString p) =
+      some (.ipaddr false (v4addr a b c d) p)
+
+/-- NOT PROVED (time): converse of `datetime_parse_exact(_date)` — every accepted string is one of the two
+    declarative forms -/
+def FullStatement_datetime_parse_only_lang : Prop :=
+  ∀ (s : String) (v : Int), Datetime.parse s = some v →
+    (∃ ys ms ds, Datetime.digitsN 4 ys ∧ Datetime.digitsN 2 ms ∧ Datetime.digitsN 2 ds ∧
+      s.toList = Datetime.renderDate ys ms ds []) ∨
+    (∃ ys ms ds hs mis ss m3 off, Datetime.digitsN 4 ys ∧ Datetime.digitsN 2 ms ∧ Datetime.digitsN 2 ds ∧
+      Datetime.digitsN 2 hs ∧ Datetime.digitsN 2 mis ∧ Datetime.digitsN 2 ss ∧ Datetime.msWF m3 ∧ Datetime.offWF off ∧
+      s.toList = Datetime.renderDate ys ms ds (Datetime.renderTime hs mis ss m3 off))
+
+-- evaluated instances: round trips, canonical/compressed IPv6, and the documented rejections
+example : IPAddr.parse "192.168.0.1/24" = some (.ipaddr false (v4addr 192 168 0 1) 24) ∧
+    IPAddr.parse "10.0.0.1" = some (.ipaddr false (v4addr 10 0 0 1) 32) ∧
+    IPAddr.parse "::1" = some (.ipaddr true 1 128) ∧ IPAddr.parse "ff00::/8" = some (.ipaddr true (255 * 2 ^ 120) 8) ∧
+    IPAddr.parse "1:2:3:4:5:6:7:8/128" = IPAddr.parse "0001:0002:0003:0004:0005:0006:0007:0008" ∧
+    IPAddr.parse "01.2.3.4" = none ∧ IPAddr.parse "1.2.3.4/032" = none ∧ IPAddr.parse "1.2.3.4/33" = none ∧
+    IPAddr.parse "::1/129" = none ∧ IPAddr.parse "::ffff:1.2.3.4" = none ∧ IPAddr.parse "256.1.1.1" = none ∧
+    IPAddr.parse "1.2.3" = none ∧ IPAddr.parse "1:2:3:4:5:6:7:8:9" = none ∧ IPAddr.parse "1.2.3.4/" = none := by
   decide +kernel
 
 end Cedar.C07
